@@ -6,10 +6,8 @@ use crate::util::{emit_progress, Rng, Stats};
 
 #[derive(Clone, Copy)]
 pub struct Budget {
-    /// max length for the exhaustive small scope
-    pub g1_len: usize,
-    /// number of alphabets to exhaust (1..=3)
-    pub g1_alphas: usize,
+    /// max length of the exhaustive small scope per alphabet (0 = alphabet not used)
+    pub g1_lens: [usize; 3],
     /// sampled strings of length g1_len+1 (0 = none)
     pub g1_sampled: u64,
     /// random cases (all shards together)
@@ -53,16 +51,20 @@ pub fn for_each_case(
 
     // Part A: exhaustive small scope
     let alphas = alphabets();
-    for (ai, alpha) in alphas.iter().enumerate().take(b.g1_alphas) {
-        let total = gen::g1_count(alpha.len(), b.g1_len);
+    for (ai, alpha) in alphas.iter().enumerate() {
+        let l = b.g1_lens[ai];
+        if l == 0 {
+            continue;
+        }
+        let total = gen::g1_count(alpha.len(), l);
         let mut idx = shard;
         while idx < total {
-            let s = gen::g1_string(alpha, b.g1_len, idx);
+            let s = gen::g1_string(alpha, l, idx);
             step(&s, "g1", stats, &mut n);
             idx += nshards;
         }
         if shard == 0 {
-            stats.exhaustive_parts.insert(format!("all {} strings of length <= {} over alphabet {}", total, b.g1_len, ai));
+            stats.exhaustive_parts.insert(format!("all {} strings of length <= {} over alphabet {}", total, l, ai));
         }
         stats.cnt("g1_exhaustive", (total + nshards - 1 - shard) / nshards);
     }
@@ -72,7 +74,7 @@ pub fn for_each_case(
         let mut r = Rng::derive(seed, 0x61, shard);
         for _ in 0..per {
             let alpha = alphas[r.below(3)];
-            let l = b.g1_len + 1 + r.below(2);
+            let l = b.g1_lens.iter().copied().max().unwrap_or(4).min(5) + 1 + r.below(2);
             let mut s = String::new();
             for _ in 0..l {
                 s.push_str(r.pick(alpha));
@@ -85,8 +87,21 @@ pub fn for_each_case(
     let mut r = Rng::derive(seed, 0xB0, shard);
     let corp = corpus::all_yaml();
     for _ in 0..per {
-        let k = r.below(100);
-        if k < 38 {
+        let k = r.below(124);
+        if k >= 100 {
+            // model-rendered streams (valid by construction), their mutants, and block-scalar documents
+            if k < 110 {
+                let rd = crate::mon_c::gen_stream(&mut r, true, true);
+                step(&rd.text, "rendered", stats, &mut n);
+            } else if k < 117 {
+                let rd = crate::mon_c::gen_stream(&mut r, true, true);
+                let s = gen::mutate(&mut r, &rd.text);
+                step(&s, "rendered-mut", stats, &mut n);
+            } else {
+                let s = crate::mon_d::random_block_doc(&mut r);
+                step(&s, "block-scalar-doc", stats, &mut n);
+            }
+        } else if k < 38 {
             let s = gen::soup(&mut r);
             step(&s, "soup", stats, &mut n);
         } else if k < 72 {
